@@ -693,9 +693,11 @@ def spec_eval(t):
 def text_of(t):
     k = t[0]
     if k == 'lit':
-        # a blank after a superscript exponent: the lexer consumes the character that follows the
-        # superscript digits (open finding lexer-superscript-swallows-next-char, exercised by RAW_SUPERSCRIPT)
-        return t[1] + ' ' if t[1][-1] in SUP else t[1]
+        # superscript literals are written with or without a following blank (deterministically per
+        # literal): until e740a2c the lexer dropped the character after the superscript digits
+        if t[1][-1] in SUP and sum(map(ord, t[1])) % 2 == 0:
+            return t[1] + ' '
+        return t[1]
     if k == 'i':
         return 'i'
     if k == 'neg':
